@@ -93,6 +93,9 @@ def _convert_value(value: Any) -> Any:
         return [_convert_value(item) for item in value.items]
     elif isinstance(value, InlineMap):
         return {k: _convert_value(v) for k, v in value.pairs.items()}
+    elif isinstance(value, dict):
+        # Nested META block: a plain dict whose values may still be AST value nodes
+        return {k: _convert_value(v) for k, v in value.items()}
     elif isinstance(value, HolographicValue):
         # Holographic patterns are exported as their source text (JSON/YAML have no such type)
         return value.raw_pattern
